@@ -580,6 +580,57 @@ func runC14(c *mon.Ctx) {
 		"ximage:name-agrees")
 
 	// ------------------------------------------------------------------
+	// platform language ids: well-known ids (OpenType name chapter, Macintosh
+	// language ids and Windows LCIDs) must map to a tag of the right
+	// language; only the primary language subtag is compared
+	if hooked {
+		c.Stratum("langids", 1, func(k *mon.Case) {
+			check := func(platform string, m map[uint16]string, known map[uint16]string) {
+				ids := make([]int, 0, len(known))
+				for id := range known {
+					ids = append(ids, int(id))
+				}
+				sort.Ints(ids)
+				for _, idi := range ids {
+					id := uint16(idi)
+					want := known[id]
+					tag, ok := m[id]
+					if !ok {
+						k.Class("langids:" + platform + "-not-supported")
+						continue
+					}
+					t, err := language.Parse(tag)
+					if err != nil {
+						k.Fail("mismatch", "langids:unparsable-tag", "%s language id %#x has the tag %q: %v", platform, id, tag, err)
+						continue
+					}
+					base, _ := t.Base()
+					wb, _ := language.MustParse(want).Base()
+					norm := func(s string) string {
+						if s == "nb" { // Norwegian (macrolanguage) and Norwegian Bokmål are one entry in the id tables
+							return "no"
+						}
+						return s
+					}
+					if norm(base.String()) != norm(wb.String()) {
+						k.Fail("mismatch", "langids:wrong-language", "%s language id %#x is %s, the library maps it to %q", platform, id, want, tag)
+					}
+					k.Eval()
+				}
+				k.Class("langids:" + platform)
+			}
+			check("mac", macM, map[uint16]string{0: "en", 1: "fr", 2: "de", 3: "it", 4: "nl", 5: "sv", 6: "es", 7: "da", 8: "pt", 9: "no",
+				10: "he", 11: "ja", 12: "ar", 13: "fi", 14: "el", 15: "is", 17: "tr", 19: "zh", 21: "hi", 22: "th", 23: "ko", 25: "pl", 26: "hu",
+				32: "ru", 33: "zh", 37: "ro", 38: "cs", 45: "uk"})
+			check("win", winM, map[uint16]string{0x0409: "en", 0x0809: "en", 0x0407: "de", 0x040C: "fr", 0x0410: "it", 0x0C0A: "es",
+				0x0411: "ja", 0x0412: "ko", 0x0804: "zh", 0x0404: "zh", 0x0419: "ru", 0x0413: "nl", 0x041D: "sv", 0x0416: "pt", 0x0816: "pt",
+				0x0405: "cs", 0x0415: "pl", 0x040E: "hu", 0x0408: "el", 0x041F: "tr", 0x040D: "he", 0x0401: "ar", 0x041E: "th", 0x0406: "da",
+				0x040B: "fi", 0x0414: "no", 0x0422: "uk", 0x0418: "ro", 0x0439: "hi", 0x040F: "is"})
+		})
+		c.Require("langids:mac", "langids:win")
+	}
+
+	// ------------------------------------------------------------------
 	c.Stratum("codec", c.N(400, 40000), func(k *mon.Case) {
 		r := k.Rng
 		if k.Index == 0 {
